@@ -253,9 +253,9 @@ def flags(ctx: Ctx):
     ctx.check_expr("flag-table", "matrix/cubemeasure.py::_BaseCubeCounts.diff_nans", e, "self._diff_nans")
     cm = ctx.repo.cls("matrix/cubemeasure.py", "CubeMeasures")
     for name, vc in (("unweighted_cube_counts", "unweighted_valid_counts"), ("weighted_cube_counts", "weighted_valid_counts")):
-        body = SUMMARIZER.summarize(ctx.repo.lookup(cm, name).node)
+        body = expand(ctx.repo, cm, name)  # helper lazyproperties of CubeMeasures inlined (a shared `_diff_nans` flag)
         if isinstance(body, ast.Call) and len(body.args) >= 2:
-            ctx.check_expr("flag-table", f"matrix/cubemeasure.py::CubeMeasures.{name}[diff_nans arg]", body.args[1], f"True if self._cube.{vc} is not None else False", "a difference's count is NaN exactly when the response carries valid counts")
+            ctx.check_expr("flag-table", f"matrix/cubemeasure.py::CubeMeasures.{name}[diff_nans arg]", body.args[1], [f"True if self._cube.{vc} is not None else False", f"self._cube.{vc} is not None"], "a difference's count is NaN exactly when the response carries valid counts")
     # stripe counts
     for cname, h in (("_WeightedCounts", "weighted"), ("_UnweightedCounts", "unweighted")):
         e = expand(ctx.repo, ctx.repo.cls(SM, cname), "subtotal_values", stop=lambda m: m.name == "base_values")
